@@ -316,10 +316,28 @@ def run_body(stmts, env):
                 except _Continue:
                     continue
         elif isinstance(s, ast.With) and env.get('__mutable__'):
-            run_body(s.body, env)
-        elif isinstance(s, ast.Assign) and env.get('__mutable__') and all(isinstance(t, (ast.Subscript, ast.Attribute, ast.Name)) for t in s.targets):
+            # context managers handed in by the checker are objects with __enter__ (and optionally __exit__) callables; anything else (a lock) is entered silently
+            exits = []
+            for it in s.items:
+                cm = ev(it.context_expr, env)
+                ent = cm.__dict__.get('__enter__') if isinstance(cm, Obj) else None
+                val = ent() if callable(ent) else cm
+                if it.optional_vars is not None:
+                    if not isinstance(it.optional_vars, ast.Name):
+                        raise AnalysisError('pure evaluator: with-target %s' % norm(it.optional_vars))
+                    env[it.optional_vars.id] = val
+                ex = cm.__dict__.get('__exit__') if isinstance(cm, Obj) else None
+                if callable(ex):
+                    exits.append(ex)
+            try:
+                run_body(s.body, env)
+            finally:
+                for ex in reversed(exits):
+                    ex()
+        elif isinstance(s, ast.Assign) and env.get('__mutable__') and all(isinstance(t, (ast.Subscript, ast.Attribute, ast.Name, ast.Tuple, ast.List)) for t in s.targets):
             v = ev(s.value, env)
-            for t in s.targets:
+
+            def bind(t, v):
                 if isinstance(t, ast.Name):
                     env[t.id] = v
                 elif isinstance(t, ast.Subscript):
@@ -328,11 +346,21 @@ def run_body(stmts, env):
                         o[ev(t.slice, env)] = v
                     except (KeyError, IndexError, TypeError) as ex:
                         raise Raised(type(ex).__name__)
-                else:
+                elif isinstance(t, ast.Attribute):
                     o = ev(t.value, env)
                     if not hasattr(o, '__dict__'):
                         raise Raised('AttributeError: %s' % t.attr)
                     setattr(o, t.attr, v)
+                elif isinstance(t, (ast.Tuple, ast.List)):
+                    vs = list(v)
+                    if len(vs) != len(t.elts):
+                        raise Raised('ValueError')
+                    for t2, v2 in zip(t.elts, vs):
+                        bind(t2, v2)
+                else:
+                    raise AnalysisError('pure evaluator: assignment target %s' % norm(t))
+            for t in s.targets:
+                bind(t, v)
         elif isinstance(s, ast.Expr) and isinstance(s.value, ast.Call) and env.get('__mutable__'):
             ev(s.value, env)
         elif isinstance(s, ast.Break):
@@ -343,6 +371,9 @@ def run_body(stmts, env):
             continue
         elif isinstance(s, ast.Pass):
             continue
+        elif isinstance(s, ast.Assert):
+            if not ev(s.test, env):
+                raise Raised('AssertionError')
         elif isinstance(s, ast.Raise):
             raise Raised(norm(s.exc) if s.exc is not None else 're-raise')
         elif isinstance(s, ast.FunctionDef) and not s.decorator_list:
@@ -400,3 +431,13 @@ def call(fnode, args, globals_=None, strict_locals=False, mutable=False, methods
     except _Return as r:
         return r.v
     return None
+
+
+def module_constants(model, module):
+    """{name: value} for the names a module binds once at top level to a literal constant (flags, format strings, limits): the globals an evaluated function of that
+    module sees by default"""
+    out = {}
+    for (mn, name), v in model.module_bindings.items():
+        if mn == module.name and isinstance(v, ast.Constant):
+            out[name] = v.value
+    return out
